@@ -143,6 +143,13 @@ fn points(quick: bool) -> Vec<C> {
             }
         }
     }
+    // exactly on the lines through the branch points +-1 and +-i, at offsets down to the smallest subnormal (y^2 underflows)
+    for bp in [1.0, -1.0, 2.0, 0.5] {
+        for eps in [1e-170, -1e-170, 3e-200, -1e-300, 1e-310, 5e-324, 1e-13, -1e-9] {
+            pts.push((bp, eps));
+            pts.push((eps, bp));
+        }
+    }
     // next to the poles of tan / sec (odd multiples of pi/2 inside |z| <= 10), csc / cot (multiples of pi) and of their hyperbolic
     // twins on the imaginary axis, at distances 1e-4 and 1e-5 in 8 directions: formulae that cancel near a pole lose digits here
     for k in [1.0f64, -1.0, 3.0, -3.0, 5.0, 2.0, -2.0, 4.0, 6.0] {
@@ -323,10 +330,14 @@ fn check_point(p: C, acc: &mut Acc) -> Result<(), String> {
         ensure!((again.0.to_bits() == first.0.to_bits() && again.1.to_bits() == first.1.to_bits()) || (again.0.is_nan() && first.0.is_nan()), "{} changed between identical calls separated by calls on the conjugate", name);
     }
     // log base b
-    for b in [(2.0, 0.0), (0.0, 1.0), (-3.0, 0.5)] {
+    // bases in every quadrant and on all four half-axes (a negative real base has ln b = ln|b| + i pi, which a fast path for
+    // "real" bases must not drop); ln b from the standard library, not from the crate
+    for b in [(2.0f64, 0.0f64), (0.0, 1.0), (-3.0, 0.5), (-2.0, 0.0), (-0.5, 0.0), (0.5, 0.0), (0.0, -2.0), (1.5, -0.25)] {
         let got = c(zz.log(z(b)));
-        let want = div(l, c(z(b).ln()));
-        ensure!(nrel(got, want) <= 1e-12, "log_b");
+        let lnb = (b.0.hypot(b.1).ln(), b.1.atan2(b.0));
+        let want = div(l, lnb);
+        // (a result in the subnormal range is allowed its own rounding: one unit of 5e-324)
+        ensure!(nrel(got, want) <= 1e-12 || cabs(sub(got, want)) <= 1e-300, "log base {:?} of {:?} = {:?} but ln z / ln b = {:?}", b, p, got, want);
     }
     // ---- reduction to the real functions on the real axis
     if p.1 == 0.0 && p.1.to_bits() == 0 {
